@@ -118,6 +118,9 @@ func (fe *FnExec) doCallWith(fr *frame, st *State, in ssa.Instruction, cc *ssa.C
 		}
 	}
 	fe.optFwdObligation(fr, st, in, site, cc, full)
+	for _, a := range cc.Args {
+		fe.sharedStateObligation(fr, st, a, "hands a callee the address of", in.Pos())
+	}
 	var preSt *State
 	if fr.con != nil && (fr.con.Calls[site] != nil || len(fr.con.Ghosts) > 0) {
 		preSt = st.clone()
